@@ -44,6 +44,54 @@ type HSpec struct {
 	Threshold  uint16    `json:"threshold,omitempty"`
 	ExRate     string    `json:"ex_rate,omitempty"`
 	Extra      int       `json:"extra,omitempty"` // length of the extra-data field
+	// header numbers are *big.Int decoded from the wire without a width limit: the parts beyond uint64 (decimal, added
+	// to Num / NumPrime / PTNum)
+	NumX      string      `json:"num_x,omitempty"`
+	NumPrimeX string      `json:"num_prime_x,omitempty"`
+	PTNumX    string      `json:"pt_num_x,omitempty"`
+	Shares    []ShareSpec `json:"shares,omitempty"` // work shares / uncles in the body (before the KawPow fork)
+
+	wsHint string // generator only: WorkShareLogEntropy of the block as observed when the pair was fabricated
+}
+
+// ShareSpec describes one work share (uncle header) of a block body.
+type ShareSpec struct {
+	Parent string `json:"parent"` // hex: the stored block the share was mined on
+	Num    uint64 `json:"num"`
+	Time   uint64 `json:"time"`
+	Diff   string `json:"diff"`
+	PTNum  uint64 `json:"pt_num,omitempty"`
+	Nonce  uint64 `json:"nonce"`
+	Pow    string `json:"pow"` // the pow hash the stub engine returns for the share
+}
+
+func addX(lo uint64, x string) *big.Int { return new(big.Int).Add(u(lo), z0(x)) }
+func (s HSpec) numBig() *big.Int        { return addX(s.Num, s.NumX) }
+func (s HSpec) numPrimeBig() *big.Int   { return addX(s.NumPrime, s.NumPrimeX) }
+func (s HSpec) ptNumBig() *big.Int      { return addX(s.PTNum, s.PTNumX) }
+
+// shareHeaders fabricates the work-share headers of s (deterministic: the same spec gives the same hashes).
+func shareHeaders(s HSpec) []*types.WorkObjectHeader {
+	us := make([]*types.WorkObjectHeader, len(s.Shares))
+	for i, sh := range s.Shares {
+		uw := types.EmptyWorkObject(common.ZONE_CTX).WorkObjectHeader()
+		uw.SetLocation(zoneLoc)
+		uw.SetPrimaryCoinbase(common.ZeroAddress(zoneLoc))
+		uw.SetNumber(u(sh.Num))
+		uw.SetParentHash(common.HexToHash(sh.Parent))
+		uw.SetTime(sh.Time)
+		uw.SetDifficulty(z0(sh.Diff))
+		uw.SetPrimeTerminusNumber(u(sh.PTNum))
+		uw.SetNonce(types.EncodeNonce(sh.Nonce))
+		uw.SetData([]byte{0})
+		uw.SetShaDiffAndCount(types.NewPowShareDiffAndCount(nil, nil, nil))
+		uw.SetScryptDiffAndCount(types.NewPowShareDiffAndCount(nil, nil, nil))
+		uw.SetShaShareTarget(nil)
+		uw.SetScryptShareTarget(nil)
+		uw.SetKawpowDifficulty(nil)
+		us[i] = uw
+	}
+	return us
 }
 
 func z0(s string) *big.Int {
@@ -70,10 +118,10 @@ func build(s HSpec) *types.WorkObject {
 	}
 	wh.SetLocation(loc)
 	wh.SetPrimaryCoinbase(common.ZeroAddress(zoneLoc))
-	wh.SetNumber(u(s.Num))
+	wh.SetNumber(s.numBig())
 	wh.SetTime(s.Time)
 	wh.SetDifficulty(z0(s.Diff))
-	wh.SetPrimeTerminusNumber(u(s.PTNum))
+	wh.SetPrimeTerminusNumber(s.ptNumBig())
 	wh.SetNonce(types.EncodeNonce(s.Nonce))
 	wh.SetData([]byte{0})
 	wh.SetLock(0)
@@ -88,7 +136,7 @@ func build(s HSpec) *types.WorkObject {
 		wh.SetScryptShareTarget(nil)
 		wh.SetKawpowDifficulty(nil)
 	}
-	h.SetNumber(u(s.NumPrime), common.PRIME_CTX)
+	h.SetNumber(s.numPrimeBig(), common.PRIME_CTX)
 	h.SetNumber(u(s.NumRegion), common.REGION_CTX)
 	for i := 0; i < 3; i++ {
 		h.SetParentEntropy(z0(s.PE[i]), i)
@@ -110,7 +158,11 @@ func build(s HSpec) *types.WorkObject {
 	if s.Extra > 0 {
 		h.SetExtra(make([]byte, s.Extra))
 	}
-	if s.NUncles > 0 {
+	if len(s.Shares) > 0 {
+		us := shareHeaders(s)
+		wo.Body().SetUncles(us)
+		h.SetUncleHash(types.CalcUncleHash(us))
+	} else if s.NUncles > 0 {
 		us := make([]*types.WorkObjectHeader, s.NUncles)
 		for i := range us {
 			uw := types.EmptyWorkObject(common.ZONE_CTX).WorkObjectHeader()
@@ -187,6 +239,19 @@ func (ch *chain) setPow(wo *types.WorkObject, pow *big.Int) {
 	ch.eng.mu.Unlock()
 }
 
+// setSharePows registers the pow hashes of the work shares of s with the stub engine.
+func (ch *chain) setSharePows(s HSpec) {
+	if len(s.Shares) == 0 {
+		return
+	}
+	us := shareHeaders(s)
+	ch.eng.mu.Lock()
+	for i, uw := range us {
+		ch.eng.pow[uw.Hash()] = common.BytesToHash(z0(s.Shares[i].Pow).Bytes())
+	}
+	ch.eng.mu.Unlock()
+}
+
 // put writes the block the way the chain stores appended blocks (termini, number index, header and body).
 func (ch *chain) put(wo *types.WorkObject) {
 	rawdb.WriteTermini(ch.db, wo.Hash(), types.EmptyTermini())
@@ -203,6 +268,7 @@ func (ch *chain) markGenesis(wo *types.WorkObject) {
 func (ch *chain) add(s HSpec, store bool) *types.WorkObject {
 	wo := build(s)
 	ch.setPow(wo, z0(s.Pow))
+	ch.setSharePows(s)
 	if s.Genesis {
 		ch.markGenesis(wo)
 	}
@@ -226,18 +292,18 @@ func coqHeader(ch *chain, wo *types.WorkObject, s HSpec) string {
 			}
 		}()
 	}
-	num := s.Num
+	num := s.numBig()
 	switch ch.ctx {
 	case common.PRIME_CTX:
-		num = s.NumPrime
+		num = s.numPrimeBig()
 	case common.REGION_CTX:
-		num = s.NumRegion
+		num = u(s.NumRegion)
 	}
-	return fmt.Sprintf("(mkH %s %s %d %d %d %s %s %s %s %s %s %s %s %s %s %s %d %d %d %d %d %s %s %d)",
-		coqZ(hashZ(wo.Hash())), hlib.CoqBool(s.Genesis), num, s.NumPrime, s.Time, coqZ(z0(s.Diff)), coqZ(z0(s.Pow)), coqZ(ws),
+	return fmt.Sprintf("(mkH %s %s %s %s %d %s %s %s %s %s %s %s %s %s %s %s %d %d %d %d %d %s %s %s)",
+		coqZ(hashZ(wo.Hash())), hlib.CoqBool(s.Genesis), coqZ(num), coqZ(s.numPrimeBig()), s.Time, coqZ(z0(s.Diff)), coqZ(z0(s.Pow)), coqZ(ws),
 		coqZ(z0(s.PE[0])), coqZ(z0(s.PE[1])), coqZ(z0(s.PE[2])), coqZ(z0(s.PD[1])), coqZ(z0(s.PD[2])),
 		coqZ(z0(s.PUD[1])), coqZ(z0(s.PUD[2])), coqZ(z0(s.Uncled)), s.Expansion, s.GasLimit, s.GasUsed, s.StateLimit, s.StateUsed,
-		coqZ(z0(s.BaseFee)), coqZ(hashZ(wo.PrimeTerminusHash())), s.PTNum)
+		coqZ(z0(s.BaseFee)), coqZ(hashZ(wo.PrimeTerminusHash())), coqZ(s.ptNumBig()))
 }
 
 // ---------- CalcOrder ----------
